@@ -73,6 +73,10 @@ def run_operators(mutate=None):
         check("C17.laplacian_of_constant.row_j", sym.eq(vals[1] * SC(1, 0) + vals[3] * SC(1, 0), 0))
         from pyvc.meshmodel import compare_blocks
         compare_blocks("C17.laplacian_in_use_is_the_stencil", ops.psi_laplacian.blocks, spec, [], oc.edge_ax(M))
+        # with screening the link variables are refreshed (with the same zero potential) at every iteration: still the stencil
+        ops.set_link_exponents(SymArray((M.E, 2), lambda k_, c_: SR(0)))
+        compare_blocks("C17.laplacian_in_use_after_a_refresh_is_the_stencil", ops.psi_laplacian.blocks, spec, [], oc.edge_ax(M))
+        check("C17.no_supercurrent_after_a_refresh", sym.eq(ops.get_supercurrent(ones).at(e), 0))
         # zero supercurrent, zero dA/dt, zero terminal flux: rhs = D @ 0 - B @ 0 = 0; mu = 0 (A5); Jn = -G @ 0 - 0 = 0
         D = L["build_divergence"](M.mesh)
         G = L["build_gradient"](M.mesh)
@@ -132,12 +136,20 @@ def bounded_native(seed=0, n=4):
         np.add.at(lam, em.edges[:, 0], w)
         np.add.at(lam, em.edges[:, 1], w)
         lam_max = float((lam / mesh.areas).max())
-        for screening in (False, True):
+        # stable runs (time step at half the explicit-Euler stability limit of the smallest cell): must be bit-exact, anything else is new.
+        # one run per device far above the limit documents the known rounding instability.
+        dt_stable = 0.5 * layer.u / (np.sqrt(1 + layer.gamma ** 2) * lam_max)
+        configs = [(scr, True) for scr in (False, True)] + ([(False, False)] if t < 2 else [])
+        for screening, stable in configs:
             with tempfile.TemporaryDirectory() as td:
                 path = os.path.join(td, "o.h5")
                 adaptive = bool(t % 2 == 0)
-                opts = tdgl.SolverOptions(solve_time=3 if adaptive else 0.5, dt_init=1e-4 if adaptive else 0.02, output_file=path, save_every=7,
-                                          include_screening=screening, adaptive=adaptive, progress_interval=0)
+                if stable:
+                    opts = tdgl.SolverOptions(solve_time=40 * dt_stable, dt_init=(dt_stable / 8 if adaptive else dt_stable), dt_max=dt_stable, output_file=path, save_every=7,
+                                              include_screening=screening, adaptive=adaptive, progress_interval=0)
+                else:
+                    opts = tdgl.SolverOptions(solve_time=3 if adaptive else 0.5, dt_init=1e-4 if adaptive else 0.02, output_file=path, save_every=7,
+                                              include_screening=screening, adaptive=adaptive, progress_interval=0)
                 dt_big = opts.dt_max if adaptive else opts.dt_init
                 ratio = dt_big * np.sqrt(1 + layer.gamma ** 2) * lam_max / layer.u
                 case = dict(trial=t, seed=seed, screening=screening, adaptive=adaptive, n_sites=len(mesh.sites), gamma=layer.gamma,
@@ -160,7 +172,7 @@ def bounded_native(seed=0, n=4):
                             break
     logging.disable(logging.NOTSET)
     out = dict(confirmed=bool(bad), kind="bounded", evaluations=runs, failing_new=len(bad), failing_known=len(known), samples=(bad + known)[:3],
-               bound=f"{n} random devices x screening on/off, seed {seed}")
+               bound=f"{n} random devices x screening on/off at half the explicit-Euler stability limit (must be bit-exact) + 2 runs far above it (known finding), seed {seed}")
     if known:
         out["known"] = [("C17.bounded.stationary_under_rounding", f"{len(known)} of {runs} undriven runs leave psi=1 (first: {known[0]})")]
     if bad:
